@@ -162,4 +162,39 @@ def r_be(toks):
                 toks[i - 3:e + 1] = new; n += 1; changed = True; break
     return toks, n
 
-RULES = {"be": r_be, "vis": r_vis, "static": r_static, "attr": r_attr, "mutfull": r_mutfull, "noderive": r_derive_drop}
+def r_constfold(toks):
+    """inside `const NAME: T = ...;` items fold literal-only arithmetic (e.g. `(1 << 32) - 1`) to a literal:
+    Verus would otherwise demand an overflow proof inside a const initialiser."""
+    if not (len(toks) > 2 and toks[0].text == "const" and toks[1].kind == "ident" and toks[1].text != "fn"):
+        return toks, 0
+    try:
+        eq = next(i for i, t in enumerate(toks) if t.text == "=" and toks[i + 1].text != "=")
+    except StopIteration:
+        return toks, 0
+    out = toks[:eq + 1]; n = 0
+    i = eq + 1
+    OPS = set("<>+-*|&()")
+    while i < len(toks):
+        t = toks[i]
+        if t.kind == "num" or t.text == "(":
+            j = i; depth = 0
+            while j < len(toks) and (toks[j].kind == "num" or (toks[j].kind == "punct" and toks[j].text in OPS)):
+                if toks[j].text == "(": depth += 1
+                if toks[j].text == ")":
+                    if depth == 0: break
+                    depth -= 1
+                j += 1
+            seg = toks[i:j]
+            if len(seg) > 1 and any(x.kind == "punct" and x.text in "<>+-*|&" for x in seg):
+                import re as _re
+                expr = "".join(_re.sub(r"(?<=[0-9a-fA-F_])(u8|u16|u32|u64|usize|i32|i64)$", "", x.text).replace("_", "") if x.kind == "num" else x.text for x in seg)
+                try:
+                    v = eval(expr, {"__builtins__": {}})
+                    if isinstance(v, int) and 0 <= v < (1 << 64):
+                        out.append(Tok(hex(v), seg[0].ws, "num", seg[0].line)); n += 1; i = j; continue
+                except Exception:
+                    pass
+        out.append(t); i += 1
+    return out, n
+
+RULES = {"constfold": r_constfold, "be": r_be, "vis": r_vis, "static": r_static, "attr": r_attr, "mutfull": r_mutfull, "noderive": r_derive_drop}
